@@ -6,6 +6,7 @@ ASSUMPTIONS = [
     "CPython semantics trusted: hash() of floats/bools (ints are modelled exactly and diffed), str.encode, pathlib str(), os.path.normpath (diffed on all short strings), os.stat/os.utime",
     "same-shape = same kind at every shared position (numeric kinds are one kind, tuple ≠ list); 'told apart' = differing str/bytes/Path/None leaves, numeric leaves with different hash()",
     "the driver instantiates sha256 by a structural stand-in (digest = pre-image); the harness applies the real hashlib.sha256 to the pre-images and compares digests and the induced partition",
+    "a path denotes the file stat() resolves it to: the model's world maps a spelling (symlinks included) to the target's (hash(st_mtime), bytes); the harness reads both with os.stat / open, which follow links",
     "float('nan') is kept out of the pool and checked in a labelled side stream (id-based hash in CPython >= 3.10)",
     "file systems with case-insensitive names, Windows paths, remote UPath nodes (ETag state) out of scope",
 ]
@@ -16,8 +17,9 @@ def run(ctx):
                 "stable; equal for what Python cannot tell apart; different for every same-shape pair Python tells apart — all ordered pairs decided through the "
                 "equivalence classes; non-trivial = ordered same-shape pair of distinct pool values. (2) hash(int) vs pyHashInt on 10^4 ints. (3) os.path.normpath vs the "
                 "model on every string over {a . /} ≤ 8 chars and over {a . .. /} ≤ 5 symbols. (4) signatures of PathNode/PickleNode/Task/TaskWithoutPath/DirectoryNode/"
-                "PythonNode pools: equality ⇔ identity. (5) state() of PathNode/PickleNode/Task on real files through random write/utime/remove histories in fresh processes: "
-                "same bytes ⇔ same state. (6) pytask_collect_node on relative/absolute/dotted spellings: same normalised file/pattern ⇔ same node. (7) pytask.build on tiny "
+                "PythonNode pools: equality ⇔ identity. (5) state() of PathNode/PickleNode/Task on real files through random write/utime/remove histories in fresh processes, the files named by relative / absolute / dotted spellings "
+                "and through symbolic links (target edited with the link untouched, link re-pointed to a file with equal / different bytes): "
+                "same bytes ⇔ same state. (6) pytask_collect_node on relative/absolute/dotted spellings: same normalised file/pattern ⇔ same node. (7) pytask.build on tiny (hashed value / file dependency / file dependency declared through a symlink) "
                 "projects in fresh processes: changed value / bytes ⇒ re-executed, touch / equal value ⇒ skipped. Distinct by canonical input.")
     hash_api.campaign(ctx)
 
